@@ -32,6 +32,7 @@ class Credit:
         self.early = early  # answer with the response head before the upload has finished (legal)
         # 1: together with the first late credit the server lowers MAX_FRAME_SIZE to 16384;
         # 2: it raises INITIAL_WINDOW_SIZE by 7 (every open stream's window grows by the difference)
+        # 3: it halves INITIAL_WINDOW_SIZE (open streams' windows shrink, possibly below zero) and makes up for it with WINDOW_UPDATEs
         self.settings_change = settings_change
         self.pending: list[tuple[int | None, int]] = []  # (stream or None for connection, increment)
         self.srv: H2Server | None = None
@@ -92,6 +93,19 @@ class Credit:
             ch, self.settings_change = self.settings_change, 0
             if ch == 1:
                 self.srv.conn.update_settings({h2.settings.SettingCodes.MAX_FRAME_SIZE: 16384})
+            elif ch == 3:
+                # the stream windows shrink by the difference: negative for a stream that has used its window up
+                # (RFC 9113 6.9.2); the credit that follows makes up for it
+                old = self.srv.conn.local_settings.initial_window_size
+                new = max(1, old // 2)
+                self.srv.conn.update_settings({h2.settings.SettingCodes.INITIAL_WINDOW_SIZE: new})
+                # the SETTINGS frame travels alone; the compensating credit follows in later segments
+                self.pending = [(sid, old - new) for sid in self.srv.streams if not self.srv.streams[sid]["ended"]] + self.pending
+                self.changed = True
+                self.frames_before = {sid: len(st["data_frames"]) for sid, st in self.srv.streams.items()}
+                self.srv.flush()
+                sock.pump()
+                return True
             else:
                 self.srv.conn.update_settings({h2.settings.SettingCodes.INITIAL_WINDOW_SIZE:
                                                self.srv.conn.local_settings.initial_window_size + 7})
@@ -132,7 +146,7 @@ def _mk_body(n: int, split: bool, is_async: bool) -> typing.Any:
 )
 def upload(w: int, f: int, ln: int, pol: int, split: bool, early: bool, sc: int) -> None:
     """
-    pre: 0 <= w <= 2 and 0 <= f <= 1 and 0 <= ln <= 5 and 0 <= pol <= 5 and 0 <= sc <= 2
+    pre: 0 <= w <= 2 and 0 <= f <= 1 and 0 <= ln <= 5 and 0 <= pol <= 5 and 0 <= sc <= 3
     post: _
     """
     is_async = shard("flavour", "async") == "async"
@@ -142,7 +156,7 @@ def upload(w: int, f: int, ln: int, pol: int, split: bool, early: bool, sc: int)
     sp, ea = bool(split), bool(early)
     if not is_async and mode not in ("immediate", "tiny"):
         return  # the sync flavour has no second party to grant late credit
-    scc = ladder(sc, 0, 2)
+    scc = ladder(sc, 0, 3)
     if scc and mode in ("immediate", "tiny", "after-end"):
         return  # the change rides on the first *late* credit
     if mode == "after-end" and n > min(win, 65535):
